@@ -227,7 +227,7 @@ PROPS["C18"] = {
 
 # exclusion predicates of the typed problem generator (one per known finding, see known_findings.jsonl and DESIGN.md section 5);
 # they are switched on for every solver-level run so that the search continues behind the confirmed findings
-GEN_EXCL = ["relations_only_positive", "disjunction_only_asserted", "object_constraints_consistent", "rr_single_atom_fits_every_candidate", "one_atom_per_tau_variable"]
+GEN_EXCL = ["relations_only_positive", "disjunction_only_asserted", "object_constraints_consistent", "rr_single_atom_fits_every_candidate", "one_atom_per_tau_variable", "one_delay_per_tick", "adapt_only_last_pending"]
 QUICK_CFGS = ["dbg", "dbg-hadd-ci"]
 ALL_CFGS = ["dbg", "dbg-hadd", "dbg-ci", "dbg-hadd-ci", "rel", "rel-hadd", "rel-ci", "rel-hadd-ci"]
 
@@ -337,5 +337,54 @@ PROPS["C18"]["runs"] = (lambda base: (lambda tier: base(tier) + [
      "replay_args": ["--crash-violation"]} for l in ("L0", "L1", "L3")]))(PROPS["C18"]["runs"])
 PROPS["C18"]["rule"] += (" programs (valid typed programs of the C01 generator, layers L0/L1/L3, through read()+solve() in the Debug+ASan+UBSan build): any signal, assertion failure, std::terminate or "
                          "sanitizer report is a violation; a std::exception is not.")
+
+
+def _c03(tier):
+    q = tier == "quick"
+    n = 700 if q else 40000
+    runs = [{"cfg": "dbg-l", "harness": "h_exec", "cases": n, "max_size": 300, "shards": 8, "budget_ms": 20000, "excl": list(GEN_EXCL)}]
+    for c in (["dbg", "dbg-hadd-ci"] if q else ALL_CFGS):
+        runs.append({"cfg": c, "harness": "h_prob", "cases": n, "max_size": 300, "shards": 4 if q else 2, "budget_ms": 20000, "excl": list(GEN_EXCL)})
+    return runs
+
+
+PROPS["C03"] = {
+    "runs": _c03,
+    "rule": "Problems with 2-4 predicates whose rules have subgoals on lower predicates with argument expressions (a, a+1, a-1, constants), disjunctive bodies, body constraints, and predicates whose "
+            "rule is 'false' (only a unification with a fact can justify them); 1-5 facts and 1-4 goals whose arguments often repeat those of an existing fact / goal (unification "
+            "opportunities) or leave an argument free. On every reported solution: observable level (all configurations, API only): every Unified atom has an Active atom of the same "
+            "predicate object with equal, fully determined arguments. Structural level (listeners configuration dbg-l, a solver_listener records every flaw and resolver, no hook): every "
+            "flaw whose phi is true has a resolver whose rho is true; an Active atom has a true activation resolver; a Unified atom has exactly one true unification resolver whose target is "
+            "Active and of the same predicate; an atom whose flaw is active is Active or Unified; the graph 'gave rise to' (through resolvers true in the solution) + 'is unified with' is acyclic. "
+            "Non-trivial: the solution contains >= 1 unified and >= 1 active atom. Distinct by program text.",
+    "technique": "property-based testing; validity predicates over the reported plan and over the derivation graph recorded through the public listener interface",
+    "level_text": "Random rule structures with many unification opportunities; the derivation graph of every solution is validated. The unification target is read from the resolver's own description "
+                  "string (the only public access).",
+    "level_note": _PROB_TRUST,
+    "assumptions": ["recursion through rules is not generated (subgoals only on lower predicates), so every search terminates"],
+}
+
+
+def _c19(tier):
+    q = tier == "quick"
+    return [{"cfg": "dbg-l", "harness": "h_exec", "cases": 1800 if q else 30000, "max_size": 400, "shards": 16, "budget_ms": 30000, "excl": list(GEN_EXCL)}]
+
+
+PROPS["C19"] = {
+    "runs": _c19,
+    "rule": "Listeners + executor configuration (dbg-l, BUILD_EXECUTOR=ON). A planted timeline problem of the C04/C05 generator with variable times (windows or free starts) is solved with an "
+            "executor attached (units_per_tick in {1, 1/2, 2}); then a tape drives 5-36 tick() calls; inside starting()/ending() the tape decides per atom whether to call dont_start_yet / "
+            "dont_end_yet with 1-3 tick units, and between ticks whether to report failure() of an active atom that has not ended. A recording executor_listener checks: tick(t) announces exactly "
+            "one more units_per_tick per call; start/end at most once per atom, end only after start; start (end) delivered only when the atom's planned start (end) at that moment is <= current "
+            "time; never in the tick() call in which the client delayed it; after every tick() that returns: the start of every started atom still in the plan and the end of every ended atom "
+            "are unchanged, and the plan passes the C04/C05/C06 validators; at the end every active atom whose planned start (end) lies before the last processed time was started (ended) "
+            "exactly once. execution_exception / unsolvable_exception are allowed outcomes; abnormal termination is a violation. Non-trivial: a delay or a failure was injected and at "
+            "least one atom was dispatched. Distinct by program + event log.",
+    "technique": "stateful property-based testing with fault injection (delays, failures) through the executor's own listener interface",
+    "level_text": "Random plans and client behaviours on the logical clock. Because of the known findings KF6/KF7 adaptation requests are generated only where the executor can honour them "
+                  "(one request per tick, only when no other atom is pending); the excluded shapes are represented by their replay files.",
+    "level_note": _PROB_TRUST,
+    "assumptions": ["integral delays (whole tick units); real-time behaviour (timer, ROS) is outside"],
+}
 
 NOT_CLAIMED = {}
